@@ -203,7 +203,9 @@ lemma("printable-slice", props=["C12"], vars={"x": "bytes", "a": "int", "b": "in
 contract(
     "multidecoder.decoders.network.normalize_percent_encoding.normalize_percent", props=["C10"],
     types={"match": "match:(?i)%([0-9a-f]{2})", "@upper_printable": "yes"}, returns="bytes",
-    ensures={"never-longer": "len(result) <= len(match.group(0))", "printable": "matches(rb'[!-~]*', result)"},
+    ensures={"never-longer": "len(result) <= len(match.group(0))", "printable": "matches(rb'[!-~]*', result)",
+             # an escape is decoded only when it spells an unreserved character (RFC 3986: ALPHA DIGIT - . _ ~); every other escape is kept, upper-cased (C10)
+             "decodes-only-unreserved": "matches(rb'[A-Za-z0-9._~-]', result) or result == match.group(0).upper()"},
 )
 contract(
     "multidecoder.decoders.network.normalize_percent_encoding", props=["C10", "C12"],
